@@ -138,6 +138,7 @@ MarkUnschedule(a) ==
   /\ Env("MarkUnschedule", <<a>>)
 RemoveServer(s) == Env("RemoveServer", <<s>>)
 AddServer(s, p) == s \in AllServers \ SrvNames(st) /\ Env("AddServer", <<s, p>>)
+SetVu(s, v) == st.servers[s].vu # v /\ Env("SetVu", <<s, v>>)
 Blacklist(a) == ~st.apps[a].blacklisted /\ Env("Blacklist", <<a>>)
 Unblacklist(a) == st.apps[a].blacklisted /\ Env("Unblacklist", <<a>>)
 SetCount(g, c) == (IF g \in DOMAIN st.groups THEN st.groups[g].count # c ELSE TRUE)
@@ -216,6 +217,7 @@ Next ==
   \/ \E s \in SrvNames(st) : Freeze(s)
   \/ \E s \in SrvNames(st) : RemoveServer(s)
   \/ \E s \in AllServers, p \in DOMAIN SProfiles : AddServer(s, p)
+  \/ \E s \in SrvNames(st), v \in {SProfiles[p].vu : p \in DOMAIN SProfiles} : SetVu(s, v)
   \/ \E g \in DOMAIN GroupsInit : DelGroup(g)
   \/ \E g \in DOMAIN GroupsInit, c \in Counts : SetCount(g, c)
   \/ \E d \in Ticks : Tick(d)
